@@ -159,12 +159,14 @@ public:
     result_type operator()()
     {
         Ctx* c = current_ctx();
+        result_type const v = e_();
         if (c != nullptr && c->counting)
         {
             ++c->pos;
             ++c->draws;
+            c->raw_ring[c->draws % 4] = static_cast<std::uint64_t>(v);
         }
-        return e_();
+        return v;
     }
 
     void discard(unsigned long long n)
